@@ -53,6 +53,18 @@ fn zqr0() -> str ! i32 {
     return 4;
 }
 
+fn zqrd(r: &i64) -> i64 {
+    return r;
+}
+
+fn zqwr(r: &'i64) {
+    r = 5;
+}
+
+fn zqrf(r: &f64) -> f64 {
+    return r;
+}
+
 fn (z: &Zqs) Try() -> str ! i32 {
     if z.B { return "no"!; }
     return z.A;
@@ -144,6 +156,14 @@ var c03Snippets = []c03Snippet{
 	{"unhandled_result", "inferred_let", c03Always("let zq1 := zqr(2);")},
 	{"unhandled_result", "method_no_arguments", c03Always("let zq0: Zqs = {.A = 1, .B = false};", "zq0.Try();")},
 	{"unhandled_result", "method_in_initialiser", c03Always("let zq0: Zqs = {.A = 1, .B = false};", "let zq1: i32 = zq0.Try();")},
+	{"argument_type", "ref_to_i32_for_ref_to_i64", c03Always("let zq0: i32 = 7;", "let zq1: i64 = zqrd(&zq0);")},
+	{"argument_type", "mut_ref_to_i32_for_mut_ref_to_i64", c03Always("let zq0: i32 = 7;", "zqwr(&'zq0);")},
+	{"argument_type", "ref_to_i32_for_ref_to_f64", c03Always("let zq0: i32 = 7;", "let zq1: f64 = zqrf(&zq0);")},
+	{"argument_type", "ref_to_field_for_ref_to_wider", c03Always("let zq0: Zqs = {.A = 1, .B = true};", "let zq1: i64 = zqrd(&zq0.A);")},
+	{"argument_type", "ref_to_bool_for_ref_to_i64", c03Always("let zq0: bool = true;", "let zq1: i64 = zqrd(&zq0);")},
+	{"argument_type", "ref_to_i128_for_ref_to_i64", c03Always("let zq0: i128 = 7;", "let zq1: i64 = zqrd(&zq0);")},
+	{"argument_type", "value_for_ref", c03Always("let zq0: i64 = 7;", "let zq1: i64 = zqrd(zq0);")},
+	{"implicit_narrowing", "ref_initialiser_to_wider_referent", c03Always("let zq0: i32 = 7;", "let zq1: &i64 = &zq0;")},
 	{"float_to_int", "mixed_literal_expression", c03Always("let zq1: i32 = 1 + 2.5;")},
 	{"float_to_int", "mixed_literal_expression_assignment", c03Always("let zq1: i64 = 1;", "zq1 = 2 * 1.5;")},
 	{"error_return_in_non_result_function", "literal", func(c *fer.StmtSite) []string {
